@@ -637,9 +637,17 @@ func rootOf(v ssa.Value) ssa.Value {
 					return v
 				}
 				v = b
+				// a variable captured by reference: what was stored into it
+				if al, isAlloc := b.(*ssa.Alloc); isAlloc {
+					if sv := singleStore(al); sv != nil {
+						v = sv
+					}
+				}
 			default:
 				v = x.X
 			}
+		case *ssa.ChangeType:
+			v = x.X
 		case *ssa.FreeVar:
 			b := bindingOf(x)
 			if b == nil {
@@ -1054,6 +1062,32 @@ func ruleC15CopyAll(cx *Ctx) {
 			}
 		})
 	}
+	// the copy driver: resize itself, or the helper it delegates the copy phase to (the function that runs the serial
+	// loop and starts the copy goroutines)
+	resizeFn := fn
+	var driverCall ssa.Instruction
+	{
+		inResize := false
+		for _, cp := range copiers {
+			if origin(outermost(cp.fn)) == origin(fn) {
+				inResize = true
+			}
+		}
+		if !inResize {
+			allInstrs(resizeFn, func(in ssa.Instruction) {
+				g := calleeOf(in)
+				if g == nil || driverCall != nil {
+					return
+				}
+				for _, cp := range copiers {
+					if origin(outermost(cp.fn)) == origin(g) {
+						driverCall = in
+						fn = origin(g)
+					}
+				}
+			})
+		}
+	}
 	paramIdx := func(f *ssa.Function, v ssa.Value) int {
 		for i, p := range f.Params {
 			if ssa.Value(p) == v {
@@ -1190,6 +1224,17 @@ func ruleC15CopyAll(cx *Ctx) {
 			pub = in
 		}
 	})
+	if driverCall != nil {
+		// the goroutines are awaited inside the driver (Wait follows every start), and the driver runs before the publication
+		allInstrs(resizeFn, func(in ssa.Instruction) {
+			if isStdMethod(in, "sync/atomic", "Pointer", "Store") && sameField(recvField(in), table) {
+				pub = in
+			}
+		})
+		awaited := wait != nil && !canReach(wait, goInstr) && canReach(goInstr, wait)
+		cx.R.Check(awaited && pub != nil && canReach(driverCall, pub) && !canReach(pub, driverCall), rule, name, "copy awaited before publish", cx.P.Pos(resizeFn.Pos()), "the new table is published only after every copy goroutine finished")
+		return
+	}
 	cx.R.Check(wait != nil && pub != nil && !canReach(pub, wait) && canReach(wait, pub), rule, name, "copy awaited before publish", cx.P.Pos(fn.Pos()), "the new table is published only after every copy goroutine finished")
 }
 
